@@ -147,6 +147,24 @@ CORPUS["C05"] = [
 ]
 
 CORPUS["C06"] = [
+    M("ring area at the first step with age >= 1", (CPH, "izRNmax = np.argmax(RN, axis=-1)", "izRNmax = np.argmax(s >= 1, axis=-1)")),
+    M("ring area at the last step", (CPH, "izRNmax = np.argmax(RN, axis=-1)", "izRNmax = RN.shape[-1] - 1")),
+    M("density without the factor one half", (CPH, "photonDen = self.dtype(0.5) * photsum / CherArea", "photonDen = photsum / CherArea")),
+    M("altitude scaling not squared", (CPH, "        ) ** 2\n\n        photonDen *= altitude_scaling", "        )\n\n        photonDen *= altitude_scaling")),
+    M("effective angle = mean - spread", (CPH, "Cang = np.degrees(AveCangI + CangsigI)", "Cang = np.degrees(AveCangI - CangsigI)")),
+    M("mean angle weighted by the yield without the track-length fraction",
+      (CPH, "AveCangI = np.sum(taphotstep * thetaC, axis=-1, dtype=self.dtype) / taphotsum",
+       "AveCangI = np.sum(np.sum(SPYield, axis=-1, dtype=self.dtype) * thetaC, axis=-1, dtype=self.dtype) / taphotsum")),
+    M("spread: correction also for a single step", (CPH, "        if nAcnt > 1:\n", "        if nAcnt > 0:\n")),
+    M("spread: deviation not squared", (CPH, "CangsigI *= np.power(thetaC - AveCangI, 2, dtype=self.dtype)", "CangsigI *= np.abs(thetaC - AveCangI)")),
+    B("ring step by the method spelling", (CPH, "izRNmax = np.argmax(RN, axis=-1)", "izRNmax = RN.argmax(axis=-1)")),
+    B("density assembled in one expression", (CPH, "photonDen = self.dtype(0.5) * photsum / CherArea", "photonDen = photsum / (self.dtype(2) * CherArea)")),
+    B("mean angle with method sums", (CPH, "AveCangI = np.sum(taphotstep * thetaC, axis=-1, dtype=self.dtype) / taphotsum",
+                                      "AveCangI = (thetaC * taphotstep).sum(axis=-1, dtype=self.dtype) / taphotsum")),
+    B("spread switch written as >= 2", (CPH, "        if nAcnt > 1:\n", "        if nAcnt >= 2:\n")),
+    B("spread: weights normalised after the sum",
+      (CPH, "        CangsigI = taphotstep / taphotsum\n        CangsigI *= np.power(thetaC - AveCangI, 2, dtype=self.dtype)\n        CangsigI = np.sum(CangsigI, axis=-1, dtype=self.dtype)\n",
+       "        CangsigI = taphotstep * np.power(thetaC - AveCangI, 2, dtype=self.dtype) / taphotsum\n        CangsigI = np.sum(CangsigI, axis=-1, dtype=self.dtype)\n")),
     M("cancelling 1 - cos form brought back", (CPH, "        athetaj = 4.0 * np.sin(0.5 * athetaj, dtype=self.dtype) ** 2", "        athetaj = 2.0 * (1.0 - np.cos(athetaj, dtype=self.dtype))")),
     M("one-degree clamp removed", (CPH, "        betaE = self.dtype(\n            np.radians(self.dtype(1)) if betaE < np.radians(1.0) else betaE\n        )", "        betaE = self.dtype(betaE)")),
     M("clamp to 1 radian instead of 1 degree", (CPH, "            np.radians(self.dtype(1)) if betaE < np.radians(1.0) else betaE", "            self.dtype(1) if betaE < np.radians(1.0) else betaE")),
